@@ -9,13 +9,13 @@ def run(ck):
     r = ck.tlc("flvout", "FlvCases", "FlvCases.cfg", timeout=900, label="frame sequences x time base x composition offset x size x cache_gop x join position")
     ck.model(r)
     cases = r.printed("@F")
-    if len(cases) < 5000:
+    if len(cases) < 10000:
         raise Infra("case generation produced %d" % len(cases))
     rnd = random.Random(ck.seed)
     rnd.shuffle(cases)
     total = len(cases)
     if q:
-        cases = cases[:1400]
+        cases = cases[:2200]
     tr = os.path.join(ck.tmp, "c08.ndjson")
     out2 = os.path.join(ck.tmp, "c08_out.json")
     ck.run_driver("./c08", "^TestFlv$", {"VERIF_IN": ck.write_lines("c08_in.ndjson", cases), "VERIF_OUT": tr, "VERIF_OUT2": out2}, timeout=3400)
@@ -36,7 +36,7 @@ def run(ck):
     seen = set()
     for b in rt.printed("@BAD"):
         c = begins.get(b["t"], {})
-        key = "%s:base=%s:cto=%s:cachegop=%s" % (b["why"], c.get("base"), c.get("cto"), c.get("cachegop"))
+        key = "%s:%s:base=%s:cto=%s:cachegop=%s" % (b["why"], c.get("codec"), c.get("base"), c.get("cto"), c.get("cachegop"))
         if key in seen:
             continue
         seen.add(key)
@@ -45,11 +45,11 @@ def run(ck):
         raise Infra("%d cases stalled (muxer did not produce the expected number of tags)" % res["stalled"])
     ck.sample({"case": cases[0]})
     ck.assumptions += ["time bases 0, just below 2^24 ms, just below 2^32 ms; video composition offsets 0, +80 ms, -40 ms; audio lags its slot by 60 ms (so that, after a join, an audio tag can be older than the replayed key frame); payload sizes 1, 2, 65535, 70000",
-                       "negative source times are not part of the input space; H.265 FLV (codec id 12) is not exercised yet"]
+                       "negative source times are not part of the input space"]
 
 
 META = {
-    "text": "FlvCases.tla enumerates 13k cases (frame sequences up to 4 over key / non-key / audio, 3 time bases crossing the 24- and 32-bit millisecond boundaries, 3 composition offsets incl. PTS<DTS, 4 payload sizes up to >64 KiB, cache_gop on/off, every join position); each runs through the real media.Stream FLV path and the real flv.Writer as the HTTP-FLV handler uses it (quick: a seeded 1400). An independent FLV / AMF0 / AVCDecoderConfigurationRecord parser turns the client's bytes into records that TLC validates against the acceptor FlvOut.tla (file header and flags, exact PreviousTagSize chain, metadata -> video configuration built from the stream's SPS/PPS -> AAC configuration -> media, length-prefixed NAL equal to the source, key flag <=> IDR, timestamps rebased to the client's first tag without wrap-around, composition offset = PTS - DTS).",
+    "text": "FlvCases.tla enumerates 26k cases (H.264 and H.265, frame sequences up to 4 over key / non-key / audio, 3 time bases crossing the 24- and 32-bit millisecond boundaries, 3 composition offsets incl. PTS<DTS, 4 payload sizes up to >64 KiB, cache_gop on/off, every join position); each runs through the real media.Stream FLV path and the real flv.Writer as the HTTP-FLV handler uses it (quick: a seeded 2200). An independent FLV / AMF0 / AVC/HEVCDecoderConfigurationRecord parser turns the client's bytes into records that TLC validates against the acceptor FlvOut.tla (file header and flags, exact PreviousTagSize chain, metadata -> video configuration built from the stream's SPS/PPS -> AAC configuration -> media, length-prefixed NAL equal to the source, key flag <=> IDR, timestamps rebased to the client's first tag without wrap-around, composition offset = PTS - DTS).",
     "note": "Trusted: TLC, FlvOut.tla, the independent parser in harness/c08. The HTTP / WebSocket framing around the FLV bytes is exercised by C11.",
     "technique": "TLA+ enumeration of the input space; real FLV pipeline output parsed independently; TLC trace validation against a TLA+ acceptor",
     "specs": ["flvout"],
